@@ -11,22 +11,61 @@ From Coq Require Import List NArith.
 Import ListNotations.
 Open Scope N_scope.
 
-(** Totality: every string – arbitrary code points, any length – yields Ok or Err.  The model
-    has no third outcome because the transcribed function has no failing operation left (the
-    u16 parse is a `?`); the tie checks Ok/Err/panic on the implementation. *)
-Theorem C10_total : forall s : list N,
-  (exists ps, parse s = POk ps) \/ (exists st c, parse s = PErr st c).
-Proof. exact parse_total. Qed.
+(** Totality ("never panic: every string yields Ok or Err").  [parse_full] is the transcription
+    of Template::from_str_with_tab_width with a third outcome [PPanic site]: every operation of
+    the function and of its callees that is partial in Rust is an [option]-valued function of the
+    model and the consumer of its failure is explicit (Template.v header; the sites, file:line, are
+    listed in docs/C10.md).  For EVERY string - arbitrary code points, any length - the outcome
+    is the Ok/Err of the two-outcome machine [parse]; in particular it is never a panic.
+    What carries the proof: `on_c[3..]` in console's Style::from_dotted_str is only reached
+    behind `starts_with("on_")`, and the u16 parse is consumed by `map_err(..)?`.
+    What it does NOT cover: operations the transcription got wrong or that are added to the
+    code later (the tie: ~900 junk strings per quick run under catch_unwind, and a recount of
+    unwrap/expect/index/arithmetic/cast tokens in the function's source on every run). *)
+Theorem C10_total : forall s : list N, parse_full s = PRes (parse s).
+Proof. exact parse_full_total. Qed.
 Print Assumptions C10_total.
 
+Theorem C10_no_panic : forall (s : list N) (site : psite), parse_full s <> PPanic site.
+Proof. exact parse_full_no_panic. Qed.
+Print Assumptions C10_no_panic.
+
+(** The panic outcome is inhabited: with the consumer of the u16 parse that the code had
+    before fix 8070567 (`.unwrap()`, policy [WUnwrap]) the model panics on "{bar:65536}" (D2),
+    and the slice `[3..]` does fail on strings that the guard keeps away from it. *)
+Example C10_d2_panicked_before_fix :
+  parse_gen WUnwrap [123; 98; 97; 114; 58; 54; 53; 53; 51; 54; 125] = PPanic SiteWidthUnwrap
+  /\ parse_gen WMapErr [123; 98; 97; 114; 58; 54; 53; 53; 51; 54; 125] = PRes (PErr SWidth 125).
+Proof. split; reflexivity. Qed.
+
+Example C10_slice_is_partial :
+  str_from 3 [111; 110] = None                 (* "on": 3 > len *)
+  /\ str_from 3 [111; 110; 233] = None         (* "oné": byte 3 is inside the é *)
+  /\ str_from 3 [233; 8364] = None             (* "é€": byte 3 is inside the € *)
+  /\ str_from 3 [8364; 33] = Some [33]         (* "€!" *)
+  /\ str_from 3 [111; 110; 95; 49; 55] = Some [49; 55].   (* "on_17" *)
+Proof. vm_compute. repeat split. Qed.
+
 (** A TemplateError can only arise at a character of the input, in the states DoubleClose,
-    MaybeOpen, Align and Width, on the characters [err_site] lists ('.' and '}' in Width only
-    for a width that does not fit u16): Literal, Key, FirstStyle and AltStyle accept every
-    character. *)
+    MaybeOpen, Align and Width, on the characters [err_site] lists: Literal, Key, FirstStyle
+    and AltStyle accept every character.  ([err_site] is a necessary condition; for '.' and
+    '}' in Width the exact condition is the next theorem.) *)
 Theorem C10_err_sites : forall (s : list N) st c,
   parse s = PErr st c -> err_site st c = true /\ In c s.
 Proof. exact parse_err_sites. Qed.
 Print Assumptions C10_err_sites.
+
+(** ... and in state Width the characters '.' and '}' - which end a width - are an error only
+    when the digits collected up to there denote a number that does not fit u16: the input
+    splits at the offending character, the prefix runs without error into state Width, and
+    the buffer then holds a non-empty digit string of value >= 2^16. *)
+Theorem C10_err_width_is_overflow : forall (s : list N) c,
+  parse s = PErr SWidth c -> c = 46 \/ c = 125 ->
+  exists s1 s2 f,
+    s = s1 ++ c :: s2 /\ trun pinit0 s1 = SOk f /\ p_state f = SWidth /\
+    p_buf f <> [] /\ forallb is_digit (p_buf f) = true /\ U16 <= digits_value (p_buf f).
+Proof. exact parse_err_width_overflow. Qed.
+Print Assumptions C10_err_width_is_overflow.
 
 (** Fidelity: for EVERY template [t] of the documented grammar (decidable [wf]: literal text
     free of braces and newlines, `{{`, `}}`, `{`+ASCII white-space, newline,
@@ -82,14 +121,43 @@ Theorem C10_newline_ends_line : forall (expand : ph -> list N) (tw : N) t1 t2,
 Proof. intros e tw t1 t2 H. split; [exact (spec_newline e tw t1 t2 H) | exact (spec_brace_newline e tw t1 t2 H)]. Qed.
 Print Assumptions C10_newline_ends_line.
 
-(** Unknown keys expand to nothing: in the executable expansion used by the tie, a key that is
-    neither overridden nor known to the crate writes only the padding its width asks for. *)
-Theorem C10_unknown_key_nothing : forall env styles p,
+(** Unknown keys expand to nothing.  [fmt_render env styles tw] is format_state for a style
+    without a wide element with the scratch String `buf` threaded through the walk as in the
+    code (declared once, cleared at the top of the Placeholder arm, style.rs:241/256); [env]
+    is the format_map (with_key), [is_builtin] the list of names in format_state's `match`
+    (FORMAT_KEYS, regenerated from style.rs by tools/constants.py).
+    (a) Whole templates: a template of the grammar containing a placeholder whose key is
+    neither overridden nor known to the crate, without a style, is accepted and renders
+    exactly as the same template with that placeholder deleted - replaced by the blanks its
+    width asks for if it has one ([pad_items]). *)
+Theorem C10_unknown_key_deleted : forall env styles tw t1 t2 k fo,
+  wf (t1 ++ IPh k fo :: t2) = true ->
+  assoc k env = None -> is_builtin k = false -> unstyled fo = true ->
+  exists ps ps',
+    parse (print (t1 ++ IPh k fo :: t2)) = POk ps /\
+    parse (print (t1 ++ pad_items fo ++ t2)) = POk ps' /\
+    fmt_render env styles tw ps = fmt_render env styles tw ps'.
+Proof. exact unknown_key_deleted. Qed.
+Print Assumptions C10_unknown_key_deleted.
+
+(** (b) One step, any style, ANY contents of the scratch buffer (what an earlier placeholder
+    left there): the unknown key appends to the current line only its style's wrapper around
+    the padding, and leaves the buffer empty.  (With a style whose escape prefix is not empty
+    this is not "nothing": see docs/C10.md, Interpretations.) *)
+Theorem C10_unknown_key_step : forall env styles tw a old p,
   assoc (ph_key p) env = None -> is_builtin (ph_key p) = false ->
-  expand_exec env styles p =
-  styled styles (ph_style p) (match ph_width p with Some w => nrepeat 32 w | None => [] end).
-Proof. exact unknown_key_nothing. Qed.
-Print Assumptions C10_unknown_key_nothing.
+  fstep env styles tw (a, old) (PPh p) =
+  (add_text a (styled styles (ph_style p)
+                 (match ph_width p with Some w => nrepeat 32 w | None => [] end)), []).
+Proof. exact unknown_key_step. Qed.
+Print Assumptions C10_unknown_key_step.
+
+(** The buffer-threading walk used by the tie is the part-by-part rendering of the fidelity
+    theorems with [expand := expand_exec env styles]. *)
+Theorem C10_fmt_render_is_render_parts : forall env styles tw ps,
+  fmt_render env styles tw ps = render_parts (expand_exec env styles) tw ps.
+Proof. exact fmt_render_parts. Qed.
+Print Assumptions C10_fmt_render_is_render_parts.
 
 (** u16::from_str as transcribed agrees with the decimal value, for digit strings of any
     length (leading zeros included). *)
@@ -129,3 +197,36 @@ Proof. split; reflexivity. Qed.
 Example C10_overflow_nonvacuous :
   wf [ILit [97]] = true /\ key_ok [107] = true /\ U16 <= digits_value [54; 53; 53; 51; 54].
 Proof. vm_compute. repeat split; discriminate. Qed.
+
+Example C10_unknown_key_nonvacuous :          (* "a{zz:>3}|{k}" with k overridden, zz unknown *)
+  let t1 := [ILit [97]] in
+  let t2 := [ILit [124]; IPh [107] None] in
+  let fo := Some (mkfmt (Some ARight) [51] false None) in
+  let env := [([107], [75])] in
+  wf (t1 ++ IPh [122; 122] fo :: t2) = true /\ assoc [122; 122] env = None /\
+  is_builtin [122; 122] = false /\ unstyled fo = true /\
+  pad_items fo = [ILit [32; 32; 32]] /\
+  (exists ps, parse (print (t1 ++ IPh [122; 122] fo :: t2)) = POk ps /\
+              fmt_render env [] 8 ps = [[97; 32; 32; 32; 124; 75]]).
+Proof. vm_compute. repeat split. eexists. split; reflexivity. Qed.
+
+(* a stale scratch buffer does not leak into an unknown key *)
+Example C10_unknown_key_after_known :
+  fmt_render [([107], [75; 75])] [] 8 [PPh (mkph [107] ALeft None false None None);
+                                        PPh (mkph [122] ALeft None false None None); PLit [33]]
+  = [[75; 75; 33]].
+Proof. reflexivity. Qed.
+
+Example C10_err_width_nonvacuous :
+  parse [123; 107; 58; 54; 33; 53; 53; 51; 54; 46] = PErr SWidth 46.   (* "{k:6!5536." *)
+Proof. reflexivity. Qed.
+
+(* behaviour outside the grammar (no theorem, see docs/C10.md "Interpretations"): `{`key
+   white-space backtracks to a literal; text pending in an unterminated placeholder is dropped *)
+Example C10_key_ws_backtrack :                 (* "a{k b" *)
+  parse [97; 123; 107; 32; 98] = POk [PLit [97]; PLit [123; 107; 32]; PLit [98]].
+Proof. reflexivity. Qed.
+Example C10_unterminated_dropped :             (* "abc{" and "ab{k:5" *)
+  parse [97; 98; 99; 123] = POk []
+  /\ parse [97; 98; 123; 107; 58; 53] = POk [PLit [97; 98]; PPh (mkph [107] ALeft None false None None)].
+Proof. split; reflexivity. Qed.
